@@ -76,6 +76,10 @@ func TestCheck(t *testing.T) {
 		rt.Case()
 		kind := limgen.Kinds[r.IntN(4)]
 		spec := limgen.Gen(r, kind, limgen.Opts{NoProbe: true})
+		if kind == "vegas" && r.IntN(4) == 0 {
+			spec.Funcs = limgen.VegasFuncs[r.IntN(len(limgen.VegasFuncs))] // caller-supplied step / threshold functions
+			rt.Count("vegas_cases_with_caller_supplied_functions", 1)
+		}
 		if (kind == "gradient" || kind == "gradient2") && r.IntN(6) == 0 {
 			// "give me the default" minimum (0) together with a queue allowance that is 0 for small limits: the
 			// minimum is then the only thing that keeps the estimate at or above 1
